@@ -374,6 +374,10 @@ func addHistory(r *evid.Run) {
 				o.Known(id)
 			}
 			tr := inssvc.RunHistory(h)
+			if tr.NotQuiet {
+				o.Discard("not-quiet-before-stop")
+				return nil
+			}
 			a := inssvc.Analyse(tr)
 			Classify(a, o)
 			return CheckAck(a)
@@ -393,7 +397,11 @@ func addStress(r *evid.Run, quick, thorough int) {
 				// the detector fires is one under which none of the guarantees can be relied on; the
 				// unchanged tree is race-free on these paths (the drivers shut down quiescently).
 				var err error
+				notQuiet = false
 				ok := RaceT.Run("case", func(*testing.T) { err = stressBody(s, o) })
+				if notQuiet {
+					return nil // discarded: no race attribution either
+				}
 				if err == nil && !ok {
 					return fmt.Errorf("the race detector reported a data race while this stress case ran (report above: \"WARNING: DATA RACE\"): " +
 						"unsynchronised access in the promise / insert-service code during concurrent pushes")
@@ -408,6 +416,10 @@ func addStress(r *evid.Run, quick, thorough int) {
 // RaceT is set by TestRace.
 var RaceT *testing.T
 
+// notQuiet is set by stressBody when the case was discarded because the writer did not
+// become quiescent before shutdown (cases run one at a time).
+var notQuiet bool
+
 func stressBody(s inssvc.Stress, o *evid.Obs) error {
 	runs := 1
 	if o.Witness {
@@ -415,6 +427,11 @@ func stressBody(s inssvc.Stress, o *evid.Obs) error {
 	}
 	for i := 0; i < runs; i++ {
 		tr := inssvc.RunStress(s)
+		if tr.NotQuiet {
+			o.Discard("not-quiet-before-stop")
+			notQuiet = true
+			return nil
+		}
 		a := inssvc.Analyse(tr)
 		if i == 0 {
 			Classify(a, o)
